@@ -29,6 +29,13 @@ pub fn template_total(args: &[String]) -> String {
             return format!("{{\"found\": true, \"clause\": \"C10 an out-of-range placeholder width is a TemplateError (neither a panic nor another width)\", \"input\": {{\"template\": {}}}, \"rerun\": \"replay template_total {}\"}}", crate::js(t), t);
         }
     }
+    // multi-byte text well in front of a placeholder that is rejected (or accepted): still no panic
+    for t in ["x\u{65e5}\u{672c}\u{8a9e}\u{306e}\u{9032}\u{6357}\u{30d0}\u{30fc}\u{3001}\u{6b8b}\u{308a}\u{6642}\u{9593} {}", " \u{2713}\u{2713}\u{2713}\u{2713}\u{2713}\u{2713}\u{2713}\u{2713} {msg:70000}",
+              "\u{e9}\u{e9}\u{e9}\u{e9}\u{e9}\u{e9}\u{e9}\u{e9}\u{e9}\u{e9} {a:b:c}", "\u{1f600}\u{1f600}\u{1f600}\u{1f600}\u{1f600} {bar:99999}", "\u{65e5}\u{672c}\u{8a9e}\u{65e5}\u{672c}\u{8a9e}\u{65e5}\u{672c}\u{8a9e} {msg}"] {
+        if let Some(p) = panics(t) {
+            return format!("{{\"found\": true, \"clause\": \"C10-total with_template panicked\", \"input\": {{\"template\": {}, \"panic\": {}}}, \"rerun\": \"replay template_total\"}}", crate::js(t), crate::js(&p));
+        }
+    }
     // small-scope enumeration over the grammar's alphabet
     let alpha: Vec<char> = "{}: a9!./\n<\u{3000}\u{e9}".chars().collect();
     let mut tried = 0u64;
@@ -141,6 +148,29 @@ pub fn template_fields(_args: &[String]) -> String {
         if got != want {
             return format!("{{\"found\": true, \"clause\": \"C10/C12 a placeholder is rendered with exactly the width, alignment and truncation written in the template\", \"tried\": {}, \"input\": {{\"template\": {}, \"msg\": {}, \"expected\": {}, \"rendered\": {}}}, \"rerun\": \"replay template_fields\"}}",
                 tried, crate::js(t), crate::js(msg), crate::js(want), crate::js(&got));
+        }
+    }
+    // texts whose byte length differs from their column count still get the padding of the field (they fit: no truncation)
+    let fits: [(&str, &str, &str); 8] = [
+        ("[{msg:2}]", "\u{e9}", "[\u{e9} ]"), ("[{msg:>2}]", "\u{e9}", "[ \u{e9}]"), ("[{msg:3}]", "\u{65e5}", "[\u{65e5} ]"), ("[{msg:6}]", "\u{65e5}\u{672c}", "[\u{65e5}\u{672c}  ]"),
+        ("[{msg:10}]", "\u{1b}[31mX\u{1b}[0m", "[X         ]"), ("[{msg:^12}]", "\u{1b}[31mabc\u{1b}[0m", "[    abc     ]"), ("[{msg:8}]", "", "[        ]"), ("[{prefix:>5.red}|{msg:5!}]", "", "[  PFX|     ]"),
+    ];
+    for (t, m, want) in fits {
+        let r = catch_unwind(AssertUnwindSafe(|| {
+            let style = ProgressStyle::with_template(t).ok()?;
+            let term = InMemoryTerm::new(10, 80);
+            let pb = ProgressBar::with_draw_target(Some(10), ProgressDrawTarget::term_like(Box::new(term.clone())));
+            pb.set_style(style);
+            pb.set_message(m.to_string());
+            pb.set_prefix("PFX");
+            pb.tick();
+            Some(term.contents())
+        }));
+        tried += 1;
+        let got = match r { Ok(Some(g)) => g, Ok(None) => "<template rejected>".to_string(), Err(_) => "<panic>".to_string() };
+        if got != want {
+            return format!("{{\"found\": true, \"clause\": \"C12 a text that fits its field is padded to the field width in columns (not bytes), also when it is empty\", \"tried\": {}, \"input\": {{\"template\": {}, \"msg\": {}, \"expected\": {}, \"rendered\": {}}}, \"rerun\": \"replay template_fields\"}}",
+                tried, crate::js(t), crate::js(m), crate::js(want), crate::js(&got));
         }
     }
     format!("{{\"found\": false, \"tried\": {}}}", tried)
